@@ -38,6 +38,10 @@ class PropCheck:
     quick_cases = 300
     thorough_cases = 3000
     trusted_base_extra: list[str] = []
+    # how cases are generated and what makes one distinct / non-trivial (evidence text)
+    rule: str = ("seeded structured generator (see DESIGN.md Appendix C) + committed corpus; a case is "
+                 "non-trivial if at least one building call succeeds after the first declaration; "
+                 "distinct = distinct JSON text")
     assumptions: list[str] = []
 
     # ---- to override
@@ -308,7 +312,7 @@ def run_check(pc: PropCheck, tier: str, seed: int) -> int:
         ] + list(pc.trusted_base_extra),
         evaluations=len(cases),
         distinct_nontrivial=len(keys),
-        rule="seeded structured generator (see DESIGN.md Appendix C) + committed corpus; a case is non-trivial if at least one building call succeeds after the first declaration; distinct = distinct JSON text",
+        rule=pc.rule,
         samples=samples,
         correspondence=dict(cases=len(cases), corpus=n_corpus, mismatches=len(mismatched), note=corr_note),
         oracle_violations=len(violations),
